@@ -493,7 +493,8 @@ func (w *c13World) makeReporter(i int, stakes []int64, selectors []int64, tag st
 	for k, st := range selectors {
 		j := w.newAcct(fmt.Sprintf("%s.sel%d", tag, k), 0)
 		w.selAccts = append(w.selAccts, j)
-		w.delegate(j, k+1, st)
+		// at the next validator, or at the same validator as the reporter's own stake (two origins on one validator)
+		w.delegate(j, k+w.r.Intn(2), st)
 		if _, err := w.rms.SelectReporter(w.ctx, &reportertypes.MsgSelectReporter{SelectorAddress: w.accts[j].String(), ReporterAddress: w.accts[i].String()}); err != nil {
 			w.t.Fatal(err)
 		}
